@@ -9,6 +9,8 @@ pub mod log {
     pub(crate) use __vx_nop as info;
     pub(crate) use __vx_nop as warn;
     pub(crate) use __vx_nop as error;
+    #[allow(dead_code)]
+    pub enum Level { Error, Warn, Info, Debug, Trace }
 }
 #[allow(unused_imports)]
 use log::{debug, error, info, trace, warn};
